@@ -745,6 +745,55 @@ class C04(AstKindProp):
             irj["returns"] = None if r.random() < 0.7 else rt
         return irj
 
+    # statement-level tie (ArgAttr.lean): param2argparse_param -> the add_argument keywords; parse_out_param on the
+    # call as the parser sees it (after unparse / re-parse), with both values of require_default over the run
+    def corr(self, c, run):
+        res = AstKindProp.corr(self, c, run)
+        from doctrans import ast_utils, emitter_utils
+
+        from .common import val_of_json
+
+        edd = bool(c["opts"].get("emit_default_doc", True))
+        for k, (n, p) in enumerate(c["ir"]["params"]):
+            q = {key: v for key, v in p.items() if key != "default"}
+            if "default" in p:
+                q["default"] = val_of_json(p["default"])
+            node = None
+            try:
+                node = ast_utils.param2argparse_param((n, copy.deepcopy(q)), word_wrap=False, emit_default_doc=edd)
+                call = _addarg_json(node)
+                impl = {"ok": _canon_addarg(call)} if call is not None else None
+            except Exception as e:
+                impl = {"raises": exc_kind(e)}
+            if impl is not None:
+                res.append(("param2argparse", {"op": "param2argparse", "name": n, "param": p, "emit": edd}, impl))
+            if node is None:
+                continue
+            try:
+                stmt = ast.parse(ast.unparse(ast.fix_missing_locations(ast.Module(body=[node], type_ignores=[])))).body[0]
+            except Exception:
+                continue
+            call = _addarg_json(stmt)
+            if call is None:
+                continue
+            rd = (k + len(c["ir"]["params"])) % 2 == 1
+            edd2 = (k % 3) == 2
+            try:
+                bn, back = emitter_utils.parse_out_param(stmt, require_default=rd, emit_default_doc=edd2)
+                impl2 = {"ok": _canon_param_out(back)} if bn == n else {"ok": {"name": bn}}
+            except Exception as e:
+                impl2 = {"raises": exc_kind(e)}
+            res.append(("parse_out_param", {"op": "parse_out_param", "call": call, "require_default": rd, "emit": edd2}, impl2))
+        return res
+
+    def canon_model(self, layer, op, ans):
+        if layer == "param2argparse" and "ok" in ans:
+            return {"ok": _canon_addarg(ans["ok"])}
+        if layer == "parse_out_param" and "ok" in ans:
+            o = ans["ok"]
+            return {"ok": {"typ": _canon_type(o.get("typ")), "doc": o.get("doc"), "default": canon_val(o.get("default"))}}
+        return AstKindProp.canon_model(self, layer, op, ans)
+
     def absent_may_become(self, typ):
         if typ in ZERO:
             return [ZERO[typ]]
@@ -802,6 +851,56 @@ class C04(AstKindProp):
             if not _expressible(t):
                 return "C04-inexpressible-type"
         return None
+
+
+def _addarg_json(node):
+    """`argument_parser.add_argument('--n', ...)` -> the keywords in transport form; None when a keyword holds
+    something the model's structure cannot carry (a non-Name type, non-string choices, a non-constant default)"""
+    from .common import val_to_json
+
+    out = {"type": None, "choices": None, "action": None, "help": None, "required": False, "default": None}
+    for kw in node.value.keywords:
+        v = kw.value
+        if isinstance(v, ast.UnaryOp) and isinstance(v.op, (ast.USub, ast.UAdd)) and isinstance(v.operand, ast.Constant) and isinstance(v.operand.value, (int, float)) and not isinstance(v.operand.value, bool):
+            v = ast.Constant(-v.operand.value if isinstance(v.op, ast.USub) else v.operand.value)
+        if kw.arg == "type":
+            if not isinstance(v, ast.Name):
+                return None
+            out["type"] = v.id
+        elif kw.arg == "choices":
+            if not (isinstance(v, ast.Tuple) and all(isinstance(e, ast.Constant) and isinstance(e.value, str) for e in v.elts)):
+                return None
+            out["choices"] = [e.value for e in v.elts]
+        elif kw.arg in ("action", "help"):
+            if not (isinstance(v, ast.Constant) and isinstance(v.value, str)):
+                return None
+            out[kw.arg] = v.value
+        elif kw.arg == "required":
+            if not (isinstance(v, ast.Constant) and isinstance(v.value, bool)):
+                return None
+            out["required"] = v.value
+        elif kw.arg == "default":
+            if not isinstance(v, ast.Constant) or val_to_json(v.value)["t"] in ("other", "none"):
+                return None
+            out["default"] = val_to_json(v.value)
+        else:
+            return None
+    return out
+
+
+def _canon_addarg(a):
+    a = dict(a)
+    a["default"] = canon_val(a.get("default"))
+    for k in ("type", "choices", "action", "help"):
+        a.setdefault(k, None)
+    a["required"] = bool(a.get("required"))
+    return a
+
+
+def _canon_param_out(back):
+    from .common import val_to_json
+
+    return {"typ": _canon_type(back.get("typ")), "doc": back.get("doc"), "default": canon_val(val_to_json(back["default"])) if "default" in back else None}
 
 
 def _expressible(t):
